@@ -284,6 +284,7 @@ package cisco
 
 //vc:func (*State).addToplevel
 //vc:  assign after "s.addChange(c)" devMode = ""
+//vc:  ensures @oneCommandAppended len(s.Changes) == old(len(s.Changes)) + 1 && len(s.Changes) > 0
 //vc:  ensures[C08] @modeBeliefSound modeBeliefSound(s) && devMode == ""
 
 //vc:func (*State).addCmd
